@@ -1,5 +1,6 @@
 //! Conformance harness for property C20 (option syntax of built-ins), see
 //! /verif/DESIGN.md section 6 "C20" and spec/OptParse.tla.
+mod classes;
 mod core;
 
 fn main() {
@@ -13,6 +14,8 @@ fn main() {
         "enum" => core::enumerate(rest),
         "random" => core::random(rest),
         "redo" => core::redo(rest),
+        "classes" => classes::classes(rest),
+        "one" => classes::one(rest),
         other => {
             eprintln!("unknown subcommand {other}");
             2
